@@ -296,32 +296,42 @@ def release (c : Ctx) (dec : List Byte) (bufsize : Nat) : Ctx :=
     { c with readlen := dec.length, rd := dec, writePos := some c.headerLen }
   else c                                        -- "unhandled opcode": nothing is set
 
-/-- the part of `hybiReadAndDecode` after the read: `wp` = writePos after the carry copy,
-`bs` = the bytes just read (n = bs.length), `inbuf` = the nInBuf bytes in front of them -/
-def decodeChunk (c : Ctx) (e : Env) (len : Nat) (inbuf : List Byte) (wp : Nat) (bufsize : Nat)
-    (bs : List Byte) : DecOut :=
-  let n := bs.length
-  let c := { c with nReadPayload := (c.nReadPayload + n) % 2 ^ 64 }
-  let wp := wp + n
-  let c := if c.remaining = 0 then { c with st := .frameComplete } else c
-  let data := inbuf ++ c.carry ++ bs
-  let toDecode := data.length
-  if wp < toDecode then ⟨c, e, .err, .ub⟩ else
-  let dataOff := wp - toDecode
-  let q := 4 * (toDecode / 4)
-  -- unmasked bytes that are released now, new carry, writePos
-  let (dec, carry', wp) :=
-    if c.st = .frameComplete then (xorMask c.mask data, ([] : List Byte), wp)
-    else (xorMask c.mask (data.take q), data.drop q, wp - (toDecode - q))
-  let c := { c with carry := carry', writePos := some wp }
-  -- toReturn = toDecode - carrylen = dec.length; for TEXT `data[toReturn] = 0` ends the C string
+/-- `nReadPayload += n; writePos += n; if (hybiRemaining(wsctx) == 0) hybiDecodeState = FRAME_COMPLETE`
+(`writePos` is threaded separately as `wpEnd`) -/
+def advance (c : Ctx) (n : Nat) : Ctx :=
+  let np := (c.nReadPayload + n) % 2 ^ 64
+  { c with nReadPayload := np,
+           st := if (c.payloadLen + 2 ^ 64 - np) % 2 ^ 64 = 0 then .frameComplete else c.st }
+
+/-- unmasking of `data` (= the `toDecode` bytes in front of writePos): all of it when the frame is
+complete, else the whole 32-bit words; returns (unmasked released bytes, bytes carried over) -/
+def unmaskChunk (complete : Bool) (m : Mask) (data : List Byte) : List Byte × List Byte :=
+  if complete then (xorMask m data, [])
+  else (xorMask m (data.take (4 * (data.length / 4))), data.drop (4 * (data.length / 4)))
+
+/-- `hybiReadAndDecode` from the unmasking loop on: `wpEnd` = writePos after the read,
+`data` = the bytes at [wpEnd - toDecode, wpEnd) -/
+def finishChunk (c : Ctx) (e : Env) (len : Nat) (wpEnd : Nat) (bufsize : Nat) (data : List Byte) :
+    DecOut :=
+  let u := unmaskChunk (c.st == .frameComplete) c.mask data
+  -- carrylen = u.2.length; memcpy(carryBuf, ...); writePos -= carrylen  (nothing when complete)
+  let c := { c with carry := u.2, writePos := some (wpEnd - u.2.length) }
+  -- toReturn = toDecode - carrylen = u.1.length
   if c.opcode = opClose then
     if c.remaining = 0 then ⟨c, e, .frameComplete, .err .econnreset⟩
     else ⟨c, e, .closeReasonPending, .again⟩
   else
-    let c := { release c dec bufsize with readPos := some dataOff }
-    let (c, st, res) := returnData c len
-    ⟨c, e, st, res⟩
+    let c := { release c u.1 bufsize with readPos := some (wpEnd - data.length) }
+    let r := returnData c len
+    ⟨r.1, e, r.2.1, r.2.2⟩
+
+/-- the part of `hybiReadAndDecode` after the read: `wp` = writePos after the carry copy,
+`bs` = the bytes just read (n = bs.length), `inbuf` = the nInBuf bytes in front of them -/
+def decodeChunk (c : Ctx) (e : Env) (len : Nat) (inbuf : List Byte) (wp : Nat) (bufsize : Nat)
+    (bs : List Byte) : DecOut :=
+  let data := inbuf ++ c.carry ++ bs                -- toDecode = data.length
+  if wp + bs.length < data.length then ⟨c, e, .err, .ub⟩    -- `data` would start before the buffer
+  else finishChunk (advance c bs.length) e len (wp + bs.length) bufsize data
 
 def readAndDecode (c : Ctx) (e : Env) (len : Nat) (inbuf : List Byte) : DecOut :=
   match c.writePos with
